@@ -6,6 +6,10 @@ ids = [p['id'] for p in props]
 
 # id -> (level, technique, text, note)
 CLAIMED = {
+ "C31": ("exploration", "round-trip and reference-record oracle over the CLI's own \\copy code (MetaCommand::parse + SqlExecutor::handle_copy compiled into the harness), with canary table and table-list monitor",
+         "Hostile record sets are exported and re-imported, and harness-written RFC 4180 CSV / JSON files (incl. hostile keys) are imported; the destination table read through the storage API must equal the records and nothing else may change.",
+         "The CLI modules are driven in-process rather than through a spawned binary; an empty unquoted CSV field may read as NULL or ''."),
+
  "C04": ("exploration", "in-process twin execution: every query run with all parallelism decisions forced off and twice forced on (hook switches), on rayon pools of 1-16 workers; results compared as sequences/multisets, parallel operators read from probes",
          "14+ query shapes that reach the parallel scan/filter/sort/aggregate/join operators over tables of up to 3600 rows; sequential vs parallel results and two parallel repetitions must agree.",
          "Configurations are selected through vibesql_verif switches rather than the once-per-process PARALLEL_THRESHOLD variable; only scheduler interleavings that occurred are covered."),
